@@ -80,7 +80,8 @@ Proof.
     in_cases; eapply Hm; eassumption.
   - apply in_app_or in H. destruct H as [H|H]; [|apply Hf; exact H].
     in_cases; eapply Hm; eassumption.
-  - apply Hf. exact H.
+  - apply in_app_or in H. destruct H as [H|H]; [|apply Hf; exact H].
+    in_cases; eapply Hm; eassumption.
   - apply in_app_or in H. destruct H as [H|H]; [eapply Hm; exact H|apply Hf; exact H].
 Qed.
 
